@@ -5,9 +5,10 @@
 (*                                                                             *)
 (* Mirrors ccubes.py:285-326 / xcubes.py:190-239 and CPython 3.12's            *)
 (* multiprocessing.pool: pool.map cuts the task list into chunks of            *)
-(* ceil(T / (4 P)) consecutive tasks, each chunk is run by one worker, a       *)
-(* raising task aborts the rest of its chunk, and map re-raises the first      *)
-(* *recorded* failure only after every chunk has finished.                     *)
+(* ceil(T / (4 P)) consecutive tasks and each chunk is run by one worker.      *)
+(* Pool workers hand only ordinary Exceptions back to map(), so the cube wraps *)
+(* every task: what a task raises is recorded, tasks that start afterwards are *)
+(* skipped, and the first recorded failure is re-raised once map() returns.    *)
 (*                                                                             *)
 (* A task t consults the callback (Check), then performs its fills one by one  *)
 (* (Fill), each writing the cell Addr(t, f) of the shared result regions; the  *)
@@ -56,17 +57,26 @@ Take(w) ==
         /\ cur' = [cur EXCEPT ![w] = [phase |-> "check", chunk |-> c, pos |-> 1, fills |-> 0]]
   /\ UNCHANGED <<faults, consulted, regions, writes, failed, finished, outcome, round>>
 
+\* The cube wraps every task: a task that starts after a failure has been recorded is skipped, and whatever a
+\* task raises (ordinary Exception or not) is recorded instead of reaching the pool's worker loop.
+Advance(w) == IF cur[w].pos < Len(ChunkTasks(cur[w].chunk))
+              THEN cur' = [cur EXCEPT ![w].phase = "check", ![w].pos = @ + 1] /\ UNCHANGED finished
+              ELSE cur' = [cur EXCEPT ![w] = Idle] /\ finished' = finished \cup {cur[w].chunk}
+
 Check(w) ==
   /\ outcome = "running" /\ cur[w].phase = "check"
   /\ LET t == TaskOf(w) IN
        /\ consulted' = Append(consulted, t)
        /\ IF t \in faults
-          THEN /\ failed' = Append(failed, t)               \* the rest of the chunk is abandoned
-               /\ finished' = finished \cup {cur[w].chunk}
-               /\ cur' = [cur EXCEPT ![w] = Idle]
-          ELSE /\ cur' = [cur EXCEPT ![w].phase = "fill", ![w].fills = 0]
-               /\ UNCHANGED <<failed, finished>>
+          THEN failed' = Append(failed, t) /\ Advance(w)      \* recorded; the worker goes on to its next task
+          ELSE cur' = [cur EXCEPT ![w].phase = "fill", ![w].fills = 0] /\ UNCHANGED <<failed, finished>>
   /\ UNCHANGED <<faults, claimed, regions, writes, outcome, round>>
+
+\* a task that finds a recorded failure when it starts does nothing (the callback is not consulted)
+SkipTask(w) ==
+  /\ outcome = "running" /\ cur[w].phase = "check" /\ failed # <<>>
+  /\ Advance(w)
+  /\ UNCHANGED <<faults, claimed, consulted, regions, writes, failed, outcome, round>>
 
 Fill(w) ==
   /\ outcome = "running" /\ cur[w].phase = "fill" /\ cur[w].fills < F
@@ -122,7 +132,7 @@ Again ==
   /\ regions' = Blank /\ writes' = [c \in Cells |-> 0] /\ failed' = <<>> /\ finished' = {}
   /\ outcome' = "running" /\ round' = 2
 
-Next == (\E w \in Workers : Take(w) \/ Check(w) \/ Fill(w) \/ EndTask(w)) \/ MapDone
+Next == (\E w \in Workers : Take(w) \/ Check(w) \/ SkipTask(w) \/ Fill(w) \/ EndTask(w)) \/ MapDone
         \/ SerialStart \/ SerialCheck \/ SerialFill \/ SerialEndTask \/ Again
 Spec == Init /\ [][Next]_vars /\ WF_vars(Next)
 
